@@ -12,6 +12,23 @@ HERE = os.path.dirname(os.path.dirname(os.path.abspath(__file__)))
 sys.path.insert(0, os.path.join(HERE, "harness"))
 import srcdigest  # noqa: E402
 repo = os.environ.get("RPFT_REPO", "/repo")
+# the baseline says "the models are tied to THIS tree": refuse unless every check has run on it and held (evidence of each
+# property written against the current commit of the tree, no violation) — `--force` overrides (say why in the commit message)
+head = subprocess.run(["git", "-C", repo, "rev-parse", "--short", "HEAD"], capture_output=True, text=True).stdout.strip()
+if "--force" not in sys.argv:
+    bad = []
+    for l in open(os.path.join(HERE, "properties.jsonl")):
+        pid = json.loads(l)["id"]
+        try:
+            ev = json.load(open(os.path.join(HERE, "evidence", pid + ".json")))
+            rt = ev["coverage"].get("repo_tree", {})
+            if ev.get("violations") or rt.get("commit") != head or rt.get("modified_working_tree"):
+                bad.append(f"{pid}: violations={ev.get('violations')} evidence written against {rt.get('commit')} (tree is at {head})")
+        except Exception as e:
+            bad.append(f"{pid}: {type(e).__name__}")
+    if bad:
+        print("NOT recorded: run every check on the current tree first\n  " + "\n  ".join(bad))
+        sys.exit(1)
 files = set()
 for l in open(os.path.join(HERE, "properties.jsonl")):
     p = json.loads(l)
